@@ -221,6 +221,12 @@ def _render(line, fmt, rng):
                         'u': 'tts:textDecoration="underline"', 'color': 'tts:color="%s"' % arg,
                         # any other value of the three attributes (noUnderline, normal, oblique ...): no flag
                         'attr': '%s' % arg}[kind]
+                # a reference to a style (one the document does not define) before or after the inline attributes
+                r = rng.random()
+                if r < 0.12:
+                    attr = attr + ' style="nosuch"'
+                elif r < 0.2:
+                    attr = 'style="nosuch" ' + attr
                 out += '<span %s>' % attr
             elif fmt == 'sami':
                 if kind == 'attr':
